@@ -106,6 +106,36 @@ func (u *Universe) dbRp() (string, string) {
 	return u.db(), u.rp()
 }
 
+// nameOf draws the name of an object of the given kind ("stream", "cq", "sub"): 60 % of the time
+// one that exists in the current catalogue, otherwise from the fixed list.
+func (u *Universe) nameOf(kind string, fixed []string) string {
+	if u.State != nil && u.R.Chance(60) {
+		d := u.State()
+		var names []string
+		switch kind {
+		case "stream":
+			names = sortedKeys(d.Streams)
+		case "cq":
+			for _, dbk := range sortedKeys(d.Databases) {
+				names = append(names, sortedKeys(d.Databases[dbk].ContinuousQueries)...)
+			}
+		case "sub":
+			for _, dbk := range sortedKeys(d.Databases) {
+				db := d.Databases[dbk]
+				for _, rk := range sortedKeys(db.RetentionPolicies) {
+					for _, sub := range db.RetentionPolicies[rk].Subscriptions {
+						names = append(names, sub.Name)
+					}
+				}
+			}
+		}
+		if len(names) > 0 {
+			return names[u.R.Intn(len(names))]
+		}
+	}
+	return u.pick(fixed)
+}
+
 // lastGroupOf: the id of the last shard group of a policy (what ReSharding must name), 0 if none.
 func (u *Universe) lastGroupOf(db, rp string) uint64 {
 	if u.State == nil {
@@ -653,7 +683,7 @@ func init() {
 		return &proto2.CreateSubscriptionCommand{Name: ps(n), Database: ps(db), RetentionPolicy: ps(rp), Mode: ps("ALL"), Destinations: []string{"http://h:1"}}, fmt.Sprint(n, " ", db, " ", rp)
 	})
 	un("DropSubscription", "DropSubscriptionCommand", 2, proto2.E_DropSubscriptionCommand_Command, func(u *Universe) (interface{}, string) {
-		n := []string{"sub0", "sub1", ""}[u.R.Intn(3)]
+		n := u.nameOf("sub", []string{"sub0", "sub1", ""})
 		db, rp := u.dbRp()
 		return &proto2.DropSubscriptionCommand{Name: ps(n), Database: ps(db), RetentionPolicy: ps(rp)}, fmt.Sprint(n, " ", db, " ", rp)
 	})
@@ -774,7 +804,7 @@ func init() {
 		return &proto2.CreateStreamCommand{StreamInfo: si}, fmt.Sprint(n, " ", db, " ", rp)
 	})
 	un("DropStream", "DropStreamCommand", 1, proto2.E_DropStreamCommand_Command, func(u *Universe) (interface{}, string) {
-		n := u.pick(u.Streams)
+		n := u.nameOf("stream", u.Streams)
 		return &proto2.DropStreamCommand{Name: ps(n)}, n
 	})
 	un("VerifyDataNode", "VerifyDataNodeCommand", 1, proto2.E_VerifyDataNodeCommand_Command, func(u *Universe) (interface{}, string) {
@@ -805,7 +835,7 @@ func init() {
 		return &proto2.ContinuousQueryReportCommand{CQStates: []*proto2.CQState{{Name: ps(n), LastRunTime: p64(ts)}}}, fmt.Sprint(n, " ", ts)
 	})
 	un("DropContinuousQuery", "DropContinuousQueryCommand", 1, proto2.E_DropContinuousQueryCommand_Command, func(u *Universe) (interface{}, string) {
-		n, db := u.pick(u.CQs), u.db()
+		n, db := u.nameOf("cq", u.CQs), u.db()
 		return &proto2.DropContinuousQueryCommand{Name: ps(n), Database: ps(db)}, n + " " + db
 	})
 	un("NotifyCQLeaseChanged", "NotifyCQLeaseChangedCommand", 1, proto2.E_NotifyCQLeaseChangedCommand_Command, func(u *Universe) (interface{}, string) {
